@@ -4,7 +4,9 @@ import CddVerif.Gen.JsonSchemaTables
 # C06 model — JSON-schema emit / parse (`cdd/json_schema/{emit,parse}.py`, `utils/{emit,parse}_utils.py`)
 
 * `J` — JSON values with *ordered* objects (a Python `dict` is an association list with insertion order).
-* `emitProp` / `emit` — port of `param2json_schema_property` / `emit.json_schema`, decision by decision.  The input
+* `emitProp` / `emitT` / `emit` — port of `param2json_schema_property` / `emit.json_schema`, decision by decision
+  (`emit` is `Except`: `Typ.emitError` is the one place where the real function raises on the domain — a `Literal`
+  with a single member; `emitT` is the dict it returns otherwise).  The input
   is the structured interface description `IR` (types as a small grammar `Typ`: the six JSON-representable names,
   `Literal[str, …]`, and `Optional[…]` of those).  The string predicates the code applies to the type string
   (`typ in typ2json_type`, `startswith("Optional[")`, `[len("Optional["):-1]`, `startswith("Literal[")`, the
@@ -560,7 +562,7 @@ end
 
 /-! ## Instance validation for property schemas (`type`, `pattern`) -/
 
-/-- is `s` an occurrence-free… no: does `p` occur in `s` (substring) -/
+/-- `p in s` (substring) -/
 def isInfix (p s : Str) : Bool := Py.contains s p
 
 /-- `re.search(pat, s) is not None` for `pat = m₁|m₂|…` with literal word-character alternatives -/
